@@ -198,6 +198,10 @@ CONTEXTS = {
     # namespace must stay those of the template that was called
     'after-plain-subtemplate': ('<dtml-var plainhdr>%s', None),
     'in-plain-subtemplate': (None, None),
+    # histories of one template object: its first use happens in a namespace without guards, the observed rendering is
+    # guarded (compiled expressions and other per-template caches must not remember the unguarded mode)
+    'plain-subtemplate-used-unguarded-before': (None, None),
+    'guarded-template-used-in-plain-before': (None, None),
 }
 
 
@@ -228,14 +232,32 @@ def run_case(ch, cls, secret, syn='html', ctx='plain', deny=None):
     elif ctx == 'in-plain-subtemplate':
         kw['inner_tpl'] = _PlainHTML(text)
         text = '<dtml-var inner_tpl>'
+    elif ctx == 'plain-subtemplate-used-unguarded-before':
+        kw['inner_tpl'] = _PlainHTML(text)
+        try:
+            kw['inner_tpl'](client, **kw) if client is not None else kw['inner_tpl'](**kw)
+        except BaseException:  # noqa
+            pass
+        text = '<dtml-var inner_tpl>'
+    elif ctx == 'guarded-template-used-in-plain-before':
+        pass
     else:
         text = wrap % text
         if via:                                    # the names are reached through a with-object
             if client is not None:
                 return None, None
             kw = {via: Client('w', **kw)}
+    pre_t = None
+    if ctx == 'guarded-template-used-in-plain-before':
+        pre_t = gclass(syn)(text)
+        try:
+            outer = _PlainHTML('<dtml-var g_tpl>')
+            outer(client, g_tpl=pre_t, **kw) if client is not None else outer(g_tpl=pre_t, **kw)
+        except BaseException:  # noqa
+            pass
+    del LOG[:]
     try:
-        t = gclass(syn)(text)
+        t = pre_t if pre_t is not None else gclass(syn)(text)
         out = t(client, **kw) if client is not None else t(**kw)
         obs = 'value'
         out = str(out)
@@ -299,7 +321,7 @@ def main(tier):
     for ch in CHANNELS:
         for cls in ('public', 'private', 'denied'):
             for ctx in CONTEXTS:
-                if ch[0] == 'subtemplate' and ctx not in ('plain', 'after-plain-subtemplate'):
+                if ch[0] == 'subtemplate' and ctx not in ('plain', 'after-plain-subtemplate', 'guarded-template-used-in-plain-before'):
                     continue
                 ra, oa = run_case(ch, cls, secrets(ch, 'A'), 'html', ctx)
                 if ra is None:
@@ -337,6 +359,15 @@ def main(tier):
                     ra, oa = run_tree(dset, skip)
                     recs.append(ra)
                     meta.append((('tree-branches', ra['kind'], ra['src'], None, ('c', '0')), 'denied', ra, oa, ra, oa))
+    # binding self-test: a trace whose guard call is removed must show an unmediated read
+    n_real = len(recs)
+    for r in list(recs[:200]):
+        gi = [i for i, e in enumerate(r['ev']) if e['e'] == 'genter' and any(
+            x['e'] == 'raw' and x['o'] == e['o'] and x['a'] == e['a'] for x in r['ev'][i:i + 3])]
+        if gi and r['cls'] == 'public':
+            i = gi[0]
+            ev = [e for j, e in enumerate(r['ev']) if not (j >= i and e['e'] in ('genter', 'gexit') and e['o'] == r['ev'][i]['o'] and e['a'] == r['ev'][i]['a'])]
+            recs.append(dict(r, ev=ev, corrupted=(r['ev'][i]['o'], r['ev'][i]['a'])))
     out = {}
     cfg = 'SPECIFICATION Spec\nINVARIANT NestedCalls\nINVARIANT Verdict\nCHECK_DEADLOCK FALSE\n'
     res = tlc.run('DTGuard', cfg, files={'traces.json': json.dumps([dict({k: r[k] for k in ('kind', 'cls', 'ev', 'obs', 'shown', 'po', 'pa')},
@@ -347,6 +378,12 @@ def main(tier):
     if res.violated:
         raise tlc.TLCFailure('DTGuard: %s\n%s' % (res.violated, (res.error_trace or '')[:1500]))
     drift = []
+    for i in range(n_real + 1, len(recs) + 1):
+        v = out.get(i)
+        o, a = recs[i - 1]['corrupted']
+        if v is None or [o, a] not in [list(u) for u in v['unmediated']]:
+            common.machinery_failure('binding self-test: removing the guard call for (%s, %s) did not produce an unmediated read' % (o, a))
+        V.count('binding_selftest_corrupted_traces_rejected')
     for i, (ch, cls, ra, oa, rb, ob) in enumerate(meta, 1):
         v = out.get(i)
         if v is None:
